@@ -111,6 +111,8 @@ impl CountComputer {
                 let total_kmers_so_far_clone = Arc::clone(&total_kmers_so_far);
 
                 scope.spawn(move |_| {
+                    #[cfg(kmertools_verif)]
+                    let _verif_guard = ktio::verif::WorkerGuard;
                     loop {
                         // when limit reached exit without further reads
                         #[cfg(kmertools_verif)]
